@@ -143,7 +143,7 @@ FEATURE_GENERAL = (
      "actearly", "gain:affine", "bias:affine", "clamp:ctrlrange", "clamp:forcerange", "clamp:actrange",
      "clamp:jnt_actfrcrange", "gravcomp", "actgravcomp", "clampstack", "clampstack", "fluid", "mocap", "solver:Newton",
      "solver:CG", "jac:dense", "jac:sparse", "jac:auto", "sensor_cutoff", "eq:inactive", "clampstack"])
-FEATURE_CONTACT = ["plane", "margin", "pair", "exclude", "condim:1", "condim:3", "condim:4", "condim:6"]
+FEATURE_CONTACT = ["plane", "margin", "pair", "exclude", "condim:1", "condim:3", "condim:4", "condim:6", "sensor:touch"]
 FEATURE_FLAGS = ["dsbl:" + f for f in ("gravity", "clampctrl", "eulerdamp", "spring", "damper", "limit", "equality", "frictionloss",
                                         "actuation", "filterparent", "refsafe", "warmstart", "sensor", "contact")]
 
@@ -168,17 +168,23 @@ def feature_sensors():
 def feature_agenda(seed, ncases, contact_case, per_general=6, per_sensor=5):
     """want-lists for `ncases` models: a rotation over all feature classes (offset by the seed) so that every class is forced
     into at least one model of the tier; contact-only classes go to the cases for which contact_case(i) is true."""
-    gen, sen, flg, con = list(dict.fromkeys(FEATURE_GENERAL)) + ["clampstack"], feature_sensors(), FEATURE_FLAGS, FEATURE_CONTACT
+    gen, flg, con = list(dict.fromkeys(FEATURE_GENERAL)) + ["clampstack"], FEATURE_FLAGS, FEATURE_CONTACT
+    sen = [x for x in feature_sensors() if x != "sensor:touch"]   # touch without candidate contacts raises (known finding)
     out, ci = [], 0
     for i in range(ncases):
         wl = [gen[(seed * 7 + i * per_general + j) % len(gen)] for j in range(per_general)]
         wl += [sen[(seed * 5 + i * per_sensor + j) % len(sen)] for j in range(per_sensor)]
-        wl.append(flg[(seed * 3 + i) % len(flg)])
+        wl += [flg[(seed * 3 + i) % len(flg)], flg[(seed * 3 + i + len(flg) // 2) % len(flg)]]   # every flag in two models
         if contact_case(i):
-            wl += [con[(seed + ci * 2 + j) % len(con)] for j in range(2)]
+            wl += [con[(seed + ci * 3 + j) % len(con)] for j in range(3)]
             ci += 1
         if i % 3 == 0 and "clampstack" not in wl:
             wl.append("clampstack")        # the two-clamps-on-one-dof interaction is cheap and was missed once (seed C43-a)
+        if i % 4 == 1 and "eq:inactive" not in wl:
+            wl.append("eq:inactive")       # compact (d.ne) vs static (ne) constraint-row offsets (seed C44-a)
+        if "eq:inactive" in wl:
+            wl += [x for x in ("frictionloss", "limit") if x not in wl]
+            wl = [x for x in wl if x not in ("dsbl:equality", "dsbl:frictionloss")]
         out.append(wl)
     return out
 
@@ -285,7 +291,7 @@ def gen_model(rng, profile="contact", nbody=None, integrator=None, sensors=True,
     W = ["<worldbody>"]
     if P["plane"] and (rng.random() < 0.8 or w("plane")):
         tags.append("plane")
-        W.append('<geom name="floor" type="plane" size="5 5 0.1" condim="%d" friction="%s"/>'
+        W.append('<geom name="floor" type="plane" size="5 5 0.1" conaffinity="3" condim="%d" friction="%s"/>'
                  % (rng.choice([1, 3, 3, 4, 6]) if not (cone == "elliptic" and gate != "elliptic_condim1") else
                     rng.choice([3, 3, 4, 6]), _f([rng.uniform(0.3, 1.2), 0.005, 0.0001])))
     if gate == "elliptic_condim1":
@@ -312,6 +318,7 @@ def gen_model(rng, profile="contact", nbody=None, integrator=None, sensors=True,
     joints, hinge_slide, balls, sites, geoms = [], [], [], [], []
     bodyxml = {}
     visited = [0]
+    collide_types = set()
 
     def body(i, depth):
         top = parent[i] < 0
@@ -433,8 +440,17 @@ def gen_model(rng, profile="contact", nbody=None, integrator=None, sensors=True,
                     a.append('priority="%d"' % rng.integers(0, 3))
                 if rng.random() < 0.2:
                     a.append('solmix="%s"' % _f(rng.uniform(0.1, 3)))
-                if rng.random() < 0.15:
-                    a.append('contype="%d" conaffinity="%d"' % (rng.integers(0, 4), rng.integers(0, 4)))
+                # BOX-ELLIPSOID and BOX-CYLINDER have no MJX collision function (put_model raises): outside the gate profile
+                # the later geom of such a pair only collides with the floor (contype 2 against the floor's conaffinity 3)
+                clash = gate is None and ((gt in ("ellipsoid", "cylinder") and "box" in collide_types) or
+                                          (gt == "box" and collide_types & {"ellipsoid", "cylinder"}))
+                if clash:
+                    a.append('contype="2" conaffinity="0"')
+                    tags.append("geom:floor-only")
+                else:
+                    collide_types.add(gt)
+                    if rng.random() < 0.15:
+                        a.append('contype="%d" conaffinity="%d"' % (rng.integers(0, 4), rng.integers(0, 4)))
             tags.append("geom:" + gt)
             geoms.append((name, gt, i))
             s.append("<geom %s/>" % " ".join(a))
